@@ -7,6 +7,6 @@ From Gatery Require Import CdcDefs.
 Extraction "c12_model.ml"
   domains_ok out_ok flagged node_ok infer_real infer_state choose_min wf
   infl_sets infl_fix infl_closed has_crossing_b site_b
-  pin_source clocks_ok relation all_outputs input_clocks
+  pin_source clocks_ok sinks_clocked relation all_outputs input_clocks
   pm_empty pm_set pm_get pm_list
   mkNetlist mkNode mkClock.
